@@ -26,6 +26,15 @@ BATCH_INV = [
     ("C01", "0 <= self._batches_since_reset and self._batches_since_reset <= self._total_batches"),
 ]
 
+# the column-count memo always agrees with the stored column names (detector.py sets them together)
+MEMO_INV = [
+    ("C14", "implies(self._input_cols is not None, self._input_col_dim is not None and "
+            "self._input_col_dim == ncols(self._input_cols))"),
+    ("C14", "implies(self._input_col_dim is not None, self._input_col_dim >= 0)"),
+]
+STREAM_INV = STREAM_INV + MEMO_INV
+BATCH_INV = BATCH_INV + MEMO_INV
+
 SPEC = '''
 def err(y_true, y_pred):
     return 0 if first(y_true) == first(y_pred) else 1
